@@ -343,11 +343,14 @@ template<typename K>
 std::string gen_keys_into(PlanText &p, size_t n, size_t eps, int chunks, Rng &cfg, Rng &work) {
     gen::KeyMap<K> km;
     km.draw(cfg);
+    // VERIF_NO_AVOID=1 generates inside the predicates of the known findings too (exploration only, never registered)
+    static const bool no_avoid = std::getenv("VERIF_NO_AVOID") != nullptr;
+    km.allow_zero = no_avoid;
     gen::KeyGenParams kp;
     kp.n = n; kp.U = km.U; kp.eps = eps; kp.chunks = chunks;
     std::string sig;
     auto pos = gen::gen_positions(kp, cfg, work, sig);
-    if (std::is_same_v<K, double>) gen::cap_runs(pos, 300, km.U);
+    if (std::is_same_v<K, double> && !no_avoid) gen::cap_runs(pos, 300, km.U);
     p.keys.clear();
     p.keys.reserve(pos.size());
     for (uint64_t u : pos) p.keys.push_back((long double) km.at(u));
